@@ -8,7 +8,7 @@ LEVEL = "model_checking"
 def check(ctx):
     thorough = ctx.tier == "thorough"
     ctx.build()
-    variants = [(1, "{}"), (2, "{}"), (4, "{}"), (5, "{}"), (6, "{}")]
+    variants = [(1, "{}"), (2, "{}"), (4, "{}"), (5, "{}"), (6, "{}"), (8, "{}")]
     if thorough:
         variants.append((3, "{1, 2, 511, 1022, 1023}"))
     xc.mc_stream(ctx, variants)
